@@ -6,7 +6,8 @@ from .common import *
 EXPLANATION = ("R09.1 on every success path of each privileged execute arm a role fact about info.sender holds (admin check against the "
                "tabled Admin item, equality with the tabled Config field, or a tabled disjunction); R09.2 every ExecuteMsg variant of the "
                "five contracts is classified; R09.3 the storage slot a guard reads is written only by instantiate and by the arm that "
-               "transfers that role.")
+               "transfers that role; R09.4 the non-owner role fields of Config (vAMM margin_engine / insurance_fund, insurance fund engine) are "
+               "never initialised from info.sender, so a former owner holds no role after UpdateOwner.")
 NOT_DECIDED = "cw-controllers internals (Admin::is_admin/assert_admin/execute_update_admin, Hooks::execute_*_hook) are trusted."
 
 # role alternatives: ('admin', CONST) | ('cfg', field) | ('self',)
@@ -65,6 +66,7 @@ def run(ctx):
     ctx.rule("R09.1", "every success path of a privileged execute arm establishes its role about info.sender", 23)
     ctx.rule("R09.2", "every ExecuteMsg variant of the five contracts is classified (privileged with role / open)", 29)
     ctx.rule("R09.3", "role-holder slots (Admin items, Config) are written only by the arm that transfers the role", 9)
+    ctx.rule("R09.4", "instantiate never places the deployer (info.sender) in a role slot other than the owner's", 3)
     for contract, table in ROLES.items():
         arms = ix.arms(contract, "execute")
         if arms is None:
@@ -147,4 +149,29 @@ def run(ctx):
             ctx.inst("R09.3", "slot:%s" % slot, not extra and not missing, "",
                      "written by execute arms %s; allowed %s%s" % (sorted(writers), sorted(allowed),
                         ("; UNEXPECTED WRITER %s" % sorted(extra)) if extra else ("; role-transfer arm no longer writes it: %s" % sorted(missing)) if missing else ""))
+        # ---- R09.4: the deployer holds no role slot beyond the owner's
+        # "after an ownership transfer the old holder has no rights": a role field of Config that instantiate fills with
+        # info.sender (a placeholder, a default) keeps the deployer in that role after UpdateOwner
+        role_fields = sorted({r[1] for role in table.values() if role for r in role if r[0] == "cfg" and r[1] != "owner"})
+        if role_fields:
+            fi = ix.entry(contract, "instantiate")
+            if fi is None:
+                ctx.lost("R09.4", contract + "::contract::instantiate")
+            else:
+                info_i, _env_i = entry_params(fi)
+                dep = sym.field(info_i, "sender") if info_i is not None else None
+                for f_ in role_fields:
+                    bad = None
+                    n_st = 0
+                    for q in ix.ok_paths(fi):
+                        for wr in ix.writes_on_path(q):
+                            if wr["item"] != contract + ":config" or wr["value"] is None:
+                                continue
+                            n_st += 1
+                            v = ix.inline(sym.field(ix.inline(wr["value"]), f_))
+                            if dep is not None and dep in set(sym.walk(v)):
+                                bad = bad or sym.show(v, 5)
+                    ctx.inst("R09.4", "deployer-not-in-role:%s:config.%s" % (contract, f_), bad is None and n_st > 0, fi.where(),
+                             ("instantiate stores config.%s = %s: the deployer keeps that role after transferring ownership" % (f_, bad)) if bad else
+                             "%d config stores at instantiate; config.%s never derives from info.sender" % (n_st, f_))
         # the guard item must be the same item: implied by the matchers (const / config field); count Admin consts
